@@ -32,7 +32,8 @@ def jobs_for(tier, rng):
             for structured in ((k % 2 == 0,) if tier == "quick" else (False, True)):
                 jobs.append(dict(model=m, fw=("torch_dataset" if (len(jobs) % 3) else "torch_dataset_np_chunks"), wandb=(len(jobs) % 4 == 1), ckpt=ckpt,
                                  structured=structured, lowmem=False, lifecycle=True, test=test, sched="none",
-                                 heads=("default" if len(jobs) % 2 else "explicit"), feed=("derived" if len(jobs) % 5 == 2 else "explicit")))
+                                 heads=("default" if len(jobs) % 2 else "explicit"), feed=("derived" if len(jobs) % 5 == 2 else "explicit"),
+                                 media=(len(jobs) % 3 == 1)))
     return jobs
 
 
@@ -73,6 +74,7 @@ def run(tier, seed, only=None):
     res.clause("disk_states_checked", sum(len(t["states"]) for t in traces))
     res.clause("runs_with_checkpoint", sum(1 for t in traces if t["cfg"]["ckpt"]))
     res.clause("runs_with_test_file", sum(1 for t in traces if t["cfg"]["test"]))
+    res.clause("runs_on_labels_referring_to_a_video_file", sum(1 for o in obs if o["job"].get("media")))
     res.clause("runs_finished", sum(1 for t in traces if t["done"]))
     res.sample(dict(job=obs[0]["job"], states=[s["files"] for s in traces[0]["states"]][-6:], content=traces[0]["content"]))
     res.coverage.update(evaluations=len(traces), exhaustive=(tier == "thorough"),
